@@ -6,6 +6,13 @@ op:
   {"op":"select","cls":s,"attr":s,"occs":[[attr, null|rrel]…],"i":n,"reg":[[key,{"p":n}|{"s":rrel}]…]}
     → {"prov":["custom",n] | ["rrel",s] | ["default"]}
   `occs` = the assignments of the rule, `i` = the one the reference was created at.
+  {"op":"calls","provs":[{"p":n} | {"expr":rrel,"split":null|s}…],
+   "steps":[{"reg":null | [[key,{"s":rrel}|{"o":i}]…],
+             "refs":[{"cls":s,"attr":s,"g":null|rrel,"name":s,"split":null|s}…]}…]}
+    → {"calls":[[["user",n] | ["find",rrel,delim,[part…]] | ["default"]…]…]}
+  a whole history of one meta-model: `reg` = `register_scope_providers` (null: not called before this
+  model), `{"o":i}` = the i-th provider object of `provs` (one object may be bound to several keys),
+  `split` of a reference = `split` parameter of its match rule.
   RREL trees are represented by their source text (`parse = id`).
 -/
 open Lean Wire Select
@@ -35,6 +42,67 @@ def provJson : Provider Nat String → Json
   | .rrel s => Json.arr #["rrel", toJson s]
   | .default => Json.arr #["default"]
 
+/-- user-supplied provider objects of a `calls` request -/
+inductive UserProv where
+  | callable (tag : Nat)
+  | rrelObj (o : RrelObj String)
+
+def optStr? (j : Json) (k : String) : Option (Option String) :=
+  match j.getObjVal? k with
+  | .ok v => if v.isNull then some none else (asStr? v).map some
+  | .error _ => none
+
+def parseProvs (a : Array Json) : Option (List UserProv) :=
+  a.toList.mapM fun e =>
+    match getNat? e "p", getStr? e "expr", optStr? e "split" with
+    | some n, none, none => some (.callable n)
+    | none, some t, some sp => some (.rrelObj ⟨t, sp⟩)
+    | _, _, _ => none
+
+/-- registration dictionary of a `calls` request: provider objects are indices into `provs` -/
+def parseReg2 (nprovs : Nat) (a : Array Json) : Option (List (String × RegVal Nat)) :=
+  a.toList.mapM fun e => do
+    let xs ← asArr? e
+    if xs.size ≠ 2 then none
+    let k ← asStr? (← xs[0]?)
+    let v ← xs[1]?
+    match getNat? v "o", getStr? v "s" with
+    | some i, none => if i < nprovs then pure (k, RegVal.prov i) else none
+    | none, some s => pure (k, RegVal.str s)
+    | _, _ => none
+
+def parseRef (e : Json) : Option (Ref String) := do
+  pure { cls := ← getStr? e "cls", attr := ← getStr? e "attr", g := ← optStr? e "g", name := ← getStr? e "name",
+         ruleSplit := ← optStr? e "split" }
+
+def parseStep (nprovs : Nat) (e : Json) : Option (Step Nat String) := do
+  let refs ← (← getArr? e "refs").toList.mapM parseRef
+  let r ← getObj? e "reg"
+  if r.isNull then pure { reg := none, refs := refs }
+  else pure { reg := some (← parseReg2 nprovs (← asArr? r)), refs := refs }
+
+def callJson (provs : List UserProv) : Call Nat String → Json
+  | .user i =>
+    match provs[i]? with
+    | some (.callable n) => Json.arr #["user", toJson n]
+    | _ => badOp
+  | .find t delim parts => Json.arr #["find", toJson t, toJson delim, toJson parts]
+  | .dflt => Json.arr #["default"]
+
+def handleCalls (j : Json) : Json :=
+  match (getArr? j "provs").bind parseProvs with
+  | none => badOp
+  | some provs =>
+    match (getArr? j "steps").bind (fun a => a.toList.mapM (parseStep provs.length)) with
+    | none => badOp
+    | some steps =>
+      let view : Nat → Option (RrelObj String) := fun i =>
+        match provs[i]? with
+        | some (.rrelObj o) => some o
+        | _ => none
+      let calls := run Gen.providerOrder view id [] steps
+      Json.mkObj [("calls", Json.arr (calls.map (fun cs => Json.arr (cs.map (callJson provs)).toArray)).toArray)]
+
 def handle (j : Json) : Json :=
   match getStr? j "op" with
   | some "select" =>
@@ -48,6 +116,7 @@ def handle (j : Json) : Json :=
           Json.mkObj [("prov", provJson (select Gen.providerOrder (register id raw) cls attr (occRrel occs i)))]
       | none => badOp
     | _, _, _, _, _ => badOp
+  | some "calls" => handleCalls j
   | _ => badOp
 
 def main : IO Unit := serve handle
